@@ -23,6 +23,25 @@ def operand(r, subs):
 
 
 def mkrule(r, subs):
+    if r.below(100) < 18:
+        # operand-first pattern (filed under the empty prefix when it starts with a parameter, under the register name
+        # when it starts with a literal): `r0 <- {x}`, `{r: reg} <- {s: reg}`, `{x} = a`
+        names, ops = set(), []
+        for _ in range(2):
+            for _try in range(5):
+                o, k = operand(r, subs)
+                nm = o[o.index('{') + 1:].split(':')[0].split('}')[0] if '{' in o else None
+                if nm is None or nm not in names:
+                    if nm:
+                        names.add(nm)
+                    ops.append(o)
+                    break
+        if len(ops) == 2:
+            pat = ops[0] + r.choice([' <- ', ' <= ', ' -> ', ', ']) + ops[1]
+            prod = '0x%02x' % r.below(256)
+            for nm in sorted(names):
+                prod += ' @ %s`8' % nm
+            return pat + ' => ' + prod
     m = r.choice(MN)
     nops = r.choice([0, 1, 1, 2, 2, 3])
     ops, names = [], set()
